@@ -989,6 +989,10 @@ def limit_via_defaults_check(kind):
                     pp.pformat(v, width=30)
                     for step, lim in enumerate(seq):
                         pp.set_default_config(**{kind: lim})
+                        if step % 2 == 1:
+                            # another setting is changed afterwards: the limit must stay what it was set to
+                            pp.set_default_config(sort_dict_keys=False)
+                            pp.set_default_config(width=79)
                         for w in (79, 30):
                             try:
                                 got = pp.pformat(v, width=w)
